@@ -127,7 +127,7 @@ static void run_case(int k, const std::string & head, const std::string & body)
    Ctx cx; cx.k = k; cx.failed = false;
    {
       const bool nest = (head.find('n') != std::string::npos);
-      const int N = atoi(head.c_str());
+      int N = atoi(head.c_str());
       W w; cx.w = &w;
       for (int i=0; i<N; i++) w.AddSession();
       w.Pump();
@@ -145,6 +145,12 @@ static void run_case(int k, const std::string & head, const std::string & body)
          const int sid = atoi(ops[oi].substr(0, gt).c_str());
          std::vector<std::string> cmds = Split(ops[oi].substr(gt+1), '&');
          std::string verbs;
+         if ((cmds.size() == 1)&&(cmds[0] == "at"))
+         {
+            // a new session is attached (its canonical index is the number of sessions so far)
+            w.AddSession(); N++; cx.views.resize(N); (void) w.Pump(); w.client(N-1).inbox.clear();
+            cmds.clear();
+         }
          if ((sid < 0)||(sid >= N)) {fprintf(stderr, "bad session in [%s]\n", ops[oi].c_str()); exit(2);}
          if (!w.alive(sid)) cmds.clear();   // a detached session's client sends nothing any more
 
